@@ -25,6 +25,7 @@ type Program struct {
 	Funcs   map[string]*ssa.Function // by key (RelString(nil))
 	Specs   *Specs
 	mutGlob map[*ssa.Global]bool
+	Renames  *renameMaps
 	UnknownContracts []string
 	reSrc    map[string]string // package-level regexps initialised by regexp.MustCompile(<constant>): their patterns
 	plainErr map[string]bool // package-level errors initialised by errors.New (match only themselves)
@@ -128,6 +129,9 @@ func LoadProgram(repo, specDir string) (*Program, error) {
 		return nil, err
 	}
 	p.Specs = sp
+	if specDir != "" {
+		p.Renames = loadRenames(repo, filepath.Join(filepath.Dir(specDir), "baseline_src"))
+	}
 	// a contract that names no function of the loaded program is a mistake (misspelt name,
 	// package alias not imported at that point of the spec file): silently ignoring it would
 	// leave the function uncontracted
